@@ -21,6 +21,8 @@ func TestC02Live(t *testing.T) {
 			Media:     rapid.Bool().Draw(rt, "media"),
 			EveryMs:   rapid.SampledFrom([]int{100, 300, 500}).Draw(rt, "every_ms"),
 			Keep:      rapid.SampledFrom([]string{"GET_PARAMETER", "OPTIONS"}).Draw(rt, "keepalive"),
+			PreludeMs:    rapid.SampledFrom([]int{0, 0, 2500}).Draw(rt, "prelude_ms"),
+			FirstDelayMs: rapid.SampledFrom([]int{0, 0, 1300}).Draw(rt, "first_delay_ms"),
 		}
 		st, err := runLive(c)
 		labels := []string{c.Transport + "/" + c.Mode}
@@ -28,6 +30,12 @@ func TestC02Live(t *testing.T) {
 			labels = append(labels, "peer-alive")
 		} else {
 			labels = append(labels, "peer-silent")
+		}
+		if c.PreludeMs > 0 {
+			labels = append(labels, "slow-prelude")
+		}
+		if c.FirstDelayMs > 0 && st.ExpectedAlive {
+			labels = append(labels, "late-first-sign-of-life")
 		}
 		if st.Inconcl {
 			labels = append(labels, "latency-inconclusive(process stalled)")
